@@ -74,8 +74,15 @@ def run(ctx):
     okcs = any(p.endswith(".%d" % ic) and p.startswith(pre) for p in ps) and any(p.endswith(".%d" % is_) and p.startswith(pre) for p in ps)
     ctx.add("C13.R1", root + "#depends-on-c-and-s", okcs, "the verdict must depend on both proof scalars; depends on %s" % sorted(p for p in ps if p.startswith(pre)), at)
     # `true` only via verify_batch
-    inc = PHI.get(ret.args[0]) if ret is not None and ret.op == "phi" else None
-    vals = list(inc.values()) if inc else [ret]
+    def alternatives(v, depth=0):
+        # every value the verdict can take, through (nested) joins
+        if v is not None and v.op == "phi" and depth < 6:
+            out_ = []
+            for w in (PHI.get(v.args[0]) or {}).values():
+                out_ += alternatives(w, depth + 1)
+            return out_
+        return [v]
+    vals = alternatives(ret)
     oktrue = all((v.op == "int" and v.args[0] == 0) or v.op == "eq" for v in vals) and any(v.op == "eq" for v in vals)
     ctx.add("C13.R1", root + "#true-only-from-challenge-equality", oktrue,
             "verify may return true only as the result of the challenge comparison; return values: %s" % [S(v, 3) for v in vals], at,
